@@ -279,6 +279,32 @@ fn valid_encoding(t: &mut Tape, ty: usize) -> Option<(Vec<u8>, crate::refimpl::e
             let o = gp::gen_output(t, 120, 2);
             return Some((serialize(&o), Default::default()));
         }
+        22 => {
+            let p = gp::gen_pset(t, &PsetOpts { max_in: 0, max_out: 0, ..PsetOpts::default() });
+            return Some((serialize(&p.global), Default::default()));
+        }
+        23 => return Some((serialize(&gp::gen_unknown_key(t, 1)), Default::default())),
+        24 => {
+            let l = t.below(30);
+            let pair = pset::raw::Pair { key: gp::gen_unknown_key(t, 1), value: t.bytes(l) };
+            return Some((serialize(&pair), Default::default()));
+        }
+        25 => return Some((serialize(&gp::gen_prop_key(t, 1)), Default::default())),
+        26 => return Some((serialize(&gen::gen_stack(t, true)), Default::default())),
+        27 => {
+            let n = t.below(4);
+            let o = TxOpts { big: false, witness: false, ..TxOpts::default() };
+            let v: Vec<TxOut> = (0..n).map(|_| gen::gen_txout(t, &o)).collect();
+            return Some((serialize(&v), Default::default()));
+        }
+        28 => {
+            let pl = pool();
+            return Some((serialize(&pl.rangeproofs[t.below(pl.rangeproofs.len())]), Default::default()));
+        }
+        29 => {
+            let pl = pool();
+            return Some((serialize(&pl.surjproofs[t.below(pl.surjproofs.len())]), Default::default()));
+        }
         _ => {
             let _ = map;
             return None;
